@@ -54,8 +54,8 @@ def strategy_(draw):
         m["scheme"] = draw(st.sampled_from(["radau", "legendre"]))
     else:
         m["intg"] = draw(st.sampled_from(["rk", "expl_euler"]))
-    sp = {"name": "main", "states": [{"name": "x0", "rows": 1, "cols": 1}], "controls": [{"name": "u0", "rows": 1, "cols": 1}], "params": [], "vars": [], "algebraics": [],
-          "der": [["x0", [["+", ["*", E.C(-1.0), E.S("x0")], ["*", E.S("u0"), ["sin", ["t"]]]]]]], "method": m}
+    sp = {"name": "main", "states": [{"name": "x0", "rows": 1, "cols": 1}, {"name": "clk", "rows": 1, "cols": 1}], "controls": [{"name": "u0", "rows": 1, "cols": 1}], "params": [], "vars": [], "algebraics": [],
+          "der": [["x0", [["+", ["*", E.C(-1.0), E.S("x0")], ["*", E.S("u0"), ["sin", ["t"]]]]]], ["clk", [E.C(1.0)]]], "method": m}     # clk: a clock carried by the dynamics
     sp["t0"] = draw(gen.horizon(which="t0"))
     sp["T"] = draw(gen.horizon(which="T"))
     gen.install_horizon_params(sp)
@@ -152,6 +152,12 @@ def check(case, ctx):
     if m["cls"] == "DC":
         phys_mx.append(ocp.sample(B.syms["x0"], grid="integrator_roots")[1])
         phys_mx.append(ocp.sample(B.syms["x0"], grid="integrator")[1])
+    if "clk" in B.syms:
+        # the clock state is a physical quantity too (its own rows do not involve x0/u0, but they are not grid rows)
+        phys_mx.append(probes["main|sig:clk"][:, 0] if m["cls"] == "SS" else probes["main|sig:clk"])
+        if m["cls"] == "DC":
+            phys_mx.append(ocp.sample(B.syms["clk"], grid="integrator_roots")[1])
+            phys_mx.append(ocp.sample(B.syms["clk"], grid="integrator")[1])
     phys = np.zeros(nlp.nx, dtype=bool)
     phys[time_like_vars(nlp, phys_mx)] = True
     Tcol = time_like_vars(nlp, [probes["main|T"]]) if sp["T"][0] == "free" else np.zeros(0, dtype=int)
@@ -246,6 +252,12 @@ def check(case, ctx):
     want_dtc_int = np.concatenate([np.repeat(dtc, M), dtc[-1:]])
     if not close(res["DTc@integrator"].reshape(-1), want_dtc_int, 1e-10, 1e-11) or not close(res["DT@integrator"].reshape(-1), want_dtc_int / M, 1e-10, 1e-11):
         fails.append(Fail("DT-on-integrator-grid", feats, {"DT": res["DT@integrator"].reshape(-1), "DT_control": res["DTc@integrator"].reshape(-1), "reference_DT_control": want_dtc_int}))
+    if m["cls"] == "SS" and "main|sig:clk" in res:
+        # under SingleShooting node states are propagated: a clock state (dx/dt = 1, exact for every scheme) must advance by exactly the
+        # control-interval lengths the integrator was given
+        ck = res["main|sig:clk"].reshape(-1)
+        if not close(ck - ck[0], tk - tk[0], 1e-9, 1e-10):
+            fails.append(Fail("integrator-step-lengths", feats, {"clock_advance": ck - ck[0], "control_grid_advance": tk - tk[0]}))
     if "t_roots" in res:
         # collocation times: every integrator step carries its own points t_step + tau_j * (length of that step)
         tau = ref.Colloc(m["degree"], m["scheme"]).tau
